@@ -19,9 +19,15 @@
    Password preparation (PDFDocEncoding for R <= 4, SASLprep for R >= 5) is outside the model: every
    password here is the prepared byte string (the checks generate printable ASCII, on which both
    preparations are the identity, and exercise other passwords on the implementation only).
-   Outcomes: [Ok], [Err class], [Panic] (assert! in Rc4::new, arithmetic overflow). *)
+   Outcomes: [Ok], [Err class], [Panic] (assert! in Rc4::new, arithmetic overflow).
+   decrypt_raw's last pass -- ObjectStream::new on every decrypted stream of Type ObjStm, the objects found added
+   under the numbers that are still free -- is [objstm_pass], over Model/ObjStm.v (index parsing, direct-object
+   parser) and the parameter [p_decompress]. *)
 From LV Require Import Base.Bytes Base.Sx Model.Obj Model.DocQ Gen.Crypto
   Model.Crypto.Word Model.Crypto.RC4 Model.Crypto.PKCS5.
+(* ObjectStream::new (property C08's model), used by decrypt_raw's object-stream pass; referred to by qualified
+   names only *)
+From LV Require Model.ObjStm.
 Local Open Scope N_scope.
 
 Record prims := {
@@ -31,6 +37,11 @@ Record prims := {
   p_sha512 : bytes -> bytes;
   p_aes_enc : bytes -> bytes -> bytes;
   p_aes_dec : bytes -> bytes -> bytes;
+  (* Stream::decompress on (dict, content): Some (dict', content') on Ok (Filter and DecodeParms removed, Length
+     set), None on Err.  lopdf's filter plumbing over flate2 / weezl (modelled for property C09 in
+     Model/StreamFilt.v); a parameter here: decrypt_raw calls it through ObjectStream::new on every stream of Type
+     ObjStm, and the theorems hold whatever it does *)
+  p_decompress : dict -> bytes -> option (dict * bytes);
 }.
 
 (* error classes: lopdf::Error variants (E_) and DecryptionError variants (D_) *)
@@ -860,15 +871,13 @@ Fixpoint decrypt_objects (P : prims) (st : estate) (skip : option oid) (m : objm
    [DErr e]        Err(e) raised before anything was written: the document is unchanged;
    [DErrMid e]     Err(e) raised inside the loop over the objects: the document is left partly
                    processed (that intermediate state is not modelled and not compared);
-   [DPanic]; [DUnmodelled]: the document holds a stream of /Type /ObjStm when decrypt_raw reaches its
-   object-stream pass (ObjectStream::new decompresses and parses it: property C08's territory). *)
+   [DPanic]. *)
 Inductive dres (X : Type) :=
-| DOk (d : doc) (x : X) | DErr (e : err) | DErrMid (e : err) | DPanic | DUnmodelled.
+| DOk (d : doc) (x : X) | DErr (e : err) | DErrMid (e : err) | DPanic.
 Arguments DOk {X} d x.
 Arguments DErr {X} e.
 Arguments DErrMid {X} e.
 Arguments DPanic {X}.
-Arguments DUnmodelled {X}.
 
 Definition u32_max : N := 4294967295.
 
@@ -911,6 +920,34 @@ Definition authenticate_raw_user_password (P : prims) (d : doc) (pw : bytes) : r
 Definition has_objstm (m : objmap) : bool :=
   existsb (fun io => match snd io with OStream d _ => has_type d N_ObjStm | _ => false end) m.
 
+(* decrypt_raw's object-stream pass ("Add the objects from the object streams now that they have been decrypted"):
+     for (_, object) in self.objects.iter_mut() {
+         stream of Type ObjStm?  ObjectStream::new(stream): the stream is decompressed IN PLACE (errors ignored),
+         its index and objects are parsed; on Ok the objects are appended to a vector, on Err nothing is
+     }
+     for (id, entry) in vector { self.objects.entry(id).or_insert(entry); }      // never replaces
+   The loader does the same at load time for a document that is not encrypted; for an encrypted file it leaves the
+   object streams alone, so this pass is where their members appear. *)
+Fixpoint objstm_scan (P : prims) (m : objmap) : objmap * list (oid * obj) :=
+  match m with
+  | [] => ([], [])
+  | (id, o) :: m' =>
+    let r := objstm_scan P m' in
+    match o with
+    | OStream d c =>
+      if has_type d N_ObjStm then
+        let n := ObjStm.objstm_new (p_decompress P) d c in
+        ((id, OStream (fst (fst n)) (snd (fst n))) :: fst r,
+         (match snd n with ObjStm.OsOk objs => objs | ObjStm.OsErr _ => [] end) ++ snd r)
+      else ((id, o) :: fst r, snd r)
+    | _ => ((id, o) :: fst r, snd r)
+    end
+  end.
+Definition or_insert (m : objmap) (e : oid * obj) : objmap :=
+  match lookup m (fst e) with Some _ => m | None => insert m (fst e) (snd e) end.
+Definition objstm_pass (P : prims) (m : objmap) : objmap :=
+  let r := objstm_scan P m in fold_left or_insert (snd r) (fst r).
+
 (* Document::decrypt_raw; the extra result is the EncryptionState stored in the document *)
 Definition doc_decrypt_raw (P : prims) (d : doc) (pw : bytes) : dres estate :=
   if negb (is_encrypted d) then DErr E_NotEncrypted
@@ -929,12 +966,11 @@ Definition doc_decrypt_raw (P : prims) (d : doc) (pw : bytes) : dres estate :=
         | Err e => DErrMid e
         | Panic => DPanic
         | Ok objs =>
-          if has_objstm objs then DUnmodelled
-          else
-            DOk {| d_version := d_version d; d_binary_mark := d_binary_mark d;
-                   d_trailer := dict_swap_remove (d_trailer d) K_Encrypt;
-                   d_objects := (match eid with Some id => remove objs id | None => objs end);
-                   d_max_id := d_max_id d |} st
+          let objs := objstm_pass P objs in
+          DOk {| d_version := d_version d; d_binary_mark := d_binary_mark d;
+                 d_trailer := dict_swap_remove (d_trailer d) K_Encrypt;
+                 d_objects := (match eid with Some id => remove objs id | None => objs end);
+                 d_max_id := d_max_id d |} st
         end
       end
     end.
